@@ -165,7 +165,16 @@ def run(ctx: Ctx) -> None:
             if any(isinstance(x, ast.Name) and x.id == ks for x in ast.walk(ex)):
                 centres.append((n, ex))
     if not centres:
-        raise AnalysisError("gauss_spatial_kernel: no `index - centre(kernel_size)` expression found")
+        # symmetric coordinate vectors: np.linspace(-h, h, k) / np.arange(k) - h put the centre at h = (k - 1) / 2
+        lin = [c for c in calls_in(gk) if (dotted(c.func) or "") in ("np.linspace", "numpy.linspace") and len(c.args) >= 3 and canon(c.args[2]) == ks]
+        for c in lin:
+            a, b = gd.expand(c.args[0], c, depth=3, stop=(ks,)), gd.expand(c.args[1], c, depth=3, stop=(ks,))
+            sym = (poly(a) + poly(b)).terms == {}
+            centre = canon(b) if sym else "?"
+            okl = sym and canon(b) in (canon(_ex(f"{ks} // 2")), canon(_ex(f"int({ks} / 2)")))
+            ctx.ob("C10.BILATERAL", BIL, c, f"gauss_spatial_kernel: coordinates `{src(c)[:70]}` are centred on cell {centre}", okl, expected=f"distances measured from cell {ks} // 2, the centre used by the range kernel and by the block loop", detail="a symmetric coordinate vector from -(k-1)/2 to (k-1)/2 puts the peak of the spatial Gaussian half a cell away from the filtered pixel whenever the window width is even (see known finding K1: even widths do occur)")
+        if not lin:
+            raise AnalysisError("gauss_spatial_kernel: no `index - centre(kernel_size)` expression found")
     for n, ex in centres:
         c = canon(ex)
         okc2 = c in (canon(_ex(f"{ks} // 2")), canon(_ex(f"int({ks} / 2)")), canon(_ex(f"np.floor({ks} / 2)")), canon(_ex(f"math.floor({ks} / 2)")))
@@ -262,6 +271,7 @@ SPEC = PropSpec(
 )
 
 MUTANTS = [
+    {"id": "spatial-kernel-by-symmetric-linspace", "file": BIL, "old": "        arr = np.zeros((kernel_size, kernel_size))\n        for [i, j], val in np.ndenumerate(arr):  # pylint:disable=unused-variable\n            arr[i, j] = np.sqrt(abs(i - kernel_size // 2) ** 2 + abs(j - kernel_size // 2) ** 2)\n", "new": "        half = (kernel_size - 1) / 2\n        axis = np.linspace(-half, half, kernel_size)\n        arr = np.sqrt(axis[:, None] ** 2 + axis[None, :] ** 2)\n"},
     {"id": "interval-bands-not-masked-before-median", "file": MFI, "old": '            if "validity_mask" in disp.data_vars:\n                masked_data[np.where((disp["validity_mask"].data & PANDORA_MSK_PIXEL_INVALID) != 0)] = np.nan\n', "new": ""},
     {"id": "interval-bands-written-back-whole", "file": MFI, "old": "            bound[valid] = disp_median[valid]\n", "new": "            bound[:] = disp_median\n"},
     {"id": "bit11-left-on-the-border", "file": MFI, "old": '            if disp.attrs.get("offset_row_col", 0) > 0:\n                disp["validity_mask"] = mask_border(disp)\n', "new": ""},
